@@ -578,20 +578,53 @@ def generate(so=None, repo=None, range_audit=None):
         work = sorted(set(nxt))
         depth += 1
 
-    # ---- locked grammar pool: EVERY path to a mutation of the registry is dominated by the fLocked test ----------------
+    # ---- locked grammar pool: EVERY write of a pool field is dominated by the fLocked test or on the lock/unlock path ----
     pool_guards = []
     fpool = os.path.join(root, "framework", "XMLGrammarPoolImpl.cpp")
     txt, blocks, starts = scan(fpool)
-    for m in re.finditer(r"\bfGrammarRegistry\s*->\s*(put|orphanKey|removeAll|removeKey|removeNextElement|cleanup)\s*\(", txt):
+    LOCK_PATH = ("XMLGrammarPoolImpl::XMLGrammarPoolImpl", "XMLGrammarPoolImpl::~XMLGrammarPoolImpl", "XMLGrammarPoolImpl::lockPool",
+                 "XMLGrammarPoolImpl::unlockPool", "XMLGrammarPoolImpl::cleanUp", "XMLGrammarPoolImpl::deserializeGrammars")
+    FIELDS = ("fXSModel", "fXSModelIsValid", "fGrammarRegistry", "fStringPool", "fSynchronizedStringPool")
+    MUTATORS = "put|orphanKey|removeAll|removeKey|removeNextElement|cleanup|flushAll|addOrFind|addNewEntry"
+    found = []
+    for fld in FIELDS:
+        for m in re.finditer(r"\b" + fld + r"\b", txt):
+            blk = innermost(blocks, m.start())
+            fn, _ = enclosing(blk) if blk is not None else (None, None)
+            if fn is None:
+                continue
+            if re.search(r"(\.|->)\s*$", txt[max(0, m.start() - 4):m.start()]):
+                continue
+            kind = access_kind(txt, m.start(), m.end())
+            mm = re.match(r"\s*->\s*(" + MUTATORS + r")\s*\(", txt[m.end():m.end() + 60])
+            if kind in ("write", "dwrite"):
+                found.append((fn, fld + ":" + ("delete" if kind == "dwrite" else "store"), m.start()))
+            elif mm:
+                found.append((fn, fld + "->" + mm.group(1), m.start()))
+    # private helpers that write pool fields: every call of them is a write site of the caller
+    for m in re.finditer(r"\bcreateXSModel\s*\(", txt):
         blk = innermost(blocks, m.start())
-        fn, _ = enclosing(blk)
-        pool_guards.append({"func": fn or "", "op": m.group(1), "line": line_of(starts, m.start()),
-                            "guarded": dominated_by_flag(txt, blocks, m.start(), "fLocked")})
-    if not pool_guards:
-        raise TranslateError("no registry mutation found in XMLGrammarPoolImpl.cpp")
+        fn, _ = enclosing(blk) if blk is not None else (None, None)
+        if fn is not None and fn != "XMLGrammarPoolImpl::createXSModel":
+            found.append((fn, "createXSModel()", m.start()))
+    for fn, op, pos in found:
+        if fn == "XMLGrammarPoolImpl::createXSModel":
+            continue                                     # covered through its call sites
+        ok = fn in LOCK_PATH or dominated_by_flag(txt, blocks, pos, "fLocked")
+        pool_guards.append({"func": fn, "op": op, "line": line_of(starts, pos), "guarded": ok, "lockpath": fn in LOCK_PATH})
+    if not [g for g in pool_guards if not g["lockpath"]]:
+        raise TranslateError("no guarded write found in XMLGrammarPoolImpl.cpp")
+
+    # ---- RangeTokenMap::getRange: which slot does the lazily built complement go to? -------------------------------------
+    fmap = os.path.join(root, "util", "regx", "RangeTokenMap.cpp")
+    gr = body_of(scan, fmap, "RangeTokenMap::getRange")
+    getrange_publish = []
+    for m in re.finditer(r"\bsetRangeToken\s*\(([^;]*?)\)\s*;", gr):
+        args = [a.strip() for a in split_top(m.group(1), ",")]
+        getrange_publish.append({"args": m.group(1).strip(), "ok": len(args) == 2 and args[1] in ("complement", "true")})
 
     inv = {"so": so, "symbols": entries, "sites": sites, "init": init_info, "callers": callers,
-           "pool_guards": pool_guards, "range_audit": range_audit or []}
+           "pool_guards": pool_guards, "range_audit": range_audit or [], "getrange_publish": getrange_publish}
     write_coq(inv)
     side = os.path.join(V.BUILD, "c17_inventory.json")
     os.makedirs(V.BUILD, exist_ok=True)
@@ -691,6 +724,9 @@ def write_coq(inv):
         "  (%s, [%s])" % (cstr(k), "; ".join(cstr(x) for x in v)) for k, v in sorted(inv["callers"].items()))
     t += "Definition gen_pool_guards : list (string * (string * bool)) := [%s].\n" % "; ".join(
         "(%s, (%s, %s))" % (cstr(g["func"]), cstr(g["op"]), "true" if g["guarded"] else "false") for g in inv["pool_guards"])
+    t += "(* setRangeToken calls inside RangeTokenMap::getRange (lazy publication): (argument text, passes the complement flag) *)\n"
+    t += "Definition gen_getrange_publish : list (string * bool) := [%s].\n" % "; ".join(
+        "(%s, %s)" % (cstr(g["args"]), "true" if g["ok"] else "false") for g in inv["getrange_publish"])
     t += "(* state of every RangeToken reachable from RangeTokenMap right after Initialize, asked from the built library:\n" \
          "   (keyword, (complement, (present, map built))) *)\n"
     t += "Definition gen_range_tokens : list (string * (bool * (bool * bool))) := [\n%s\n].\n" % ";\n".join(
